@@ -5,6 +5,8 @@ V = os.path.dirname(os.path.dirname(os.path.abspath(__file__)))
 sys.path.insert(0, V)
 props = [json.loads(l) for l in open(os.path.join(V, "properties.jsonl"))]
 TECH = json.load(open(os.path.join(V, "tools", "claims.json")))
+import re
+THREADED = {pid["id"] for pid in props if re.search(r'"threads": 3', open(os.path.join(V, "vmon", "props", pid["id"].lower() + ".py")).read())}
 checks, na = [], []
 for p in props:
     pid = p["id"]
@@ -20,7 +22,8 @@ for p in props:
         "replay_cmd_template": f"./check {pid} --replay {{path}}",
         "engine": "vmon",
         "level_claimed": {"category": "exploration", "text": c["text"], "design_ref": f"DESIGN.md section 4, {pid}"},
-        "level_note": c["note"],
+        "level_note": c["note"] + " Dimensions inherited from vmon/core.py: every fourth shard runs under python -O, error-path history steps (vmon/poison.py) are thrown in between cases"
+                      + (", two shards run the workload in 3 concurrent threads" if pid in THREADED else "") + "; counted in the evidence.",
         "technique": c["technique"],
     })
 m = {
@@ -34,7 +37,7 @@ m = {
         "add_only": True,
     },
     "engines": [{"name": "vmon", "path": "/verif/vmon", "serves_properties": [c["property_id"] for c in checks],
-                 "kind_free_text": "runtime monitors (reference-model oracles, invariant hooks, history checkers) over generated hostile workloads, 16 shard subprocesses"}],
+                 "kind_free_text": "runtime monitors (reference-model oracles, invariant hooks, history checkers) over generated hostile workloads, 16 shard subprocesses (interpreter-mode, thread-schedule and error-path dimensions applied per shard)"}],
     "checks": checks,
     "not_applicable": na,
     "notes": "Exit codes: 0 held on everything observed, 1 violation (VIOLATION line), 2 inconclusive (monitor floors not reached / shard died). Known findings: /verif/known_findings.txt.",
